@@ -292,4 +292,83 @@ theorem panicked_stuck (target n : Nat) : ¬ ∃ s', Step true target (panickedS
   | join i w hp hw hne => simp [panickedSt] at hp
   | finish i hp hi => simp [panickedSt] at hp
 
+/-! ### bounded termination once the terminate messages are out -/
+
+/-- number of workers still running -/
+def runningCount (ws : List WState) : Nat := ws.countP (· == .running)
+
+/-- termination measure for states in which the terminate messages have been sent -/
+def mu (n : Nat) (s : St) : Nat :=
+  runningCount s.workers + (match s.phase with | .joining i => (n - i) + 1 | .done _ => 0 | _ => n + 2)
+
+theorem runningCount_le (ws : List WState) : runningCount ws ≤ ws.length := List.countP_le_length
+
+theorem runningCount_set {ws : List WState} {i : Nat} {v : WState} (hi : ws[i]? = some .running) (hv : v ≠ .running) :
+    runningCount (ws.set i v) + 1 = runningCount ws := by
+  induction ws generalizing i with
+  | nil => simp at hi
+  | cons a t ih =>
+    cases i with
+    | zero =>
+      simp only [List.getElem?_cons_zero, Option.some.injEq] at hi
+      subst hi
+      simp only [List.set_cons_zero, runningCount, List.countP_cons]
+      have : (v == WState.running) = false := by simpa using hv
+      simp [this]
+    | succ i =>
+      simp only [List.getElem?_cons_succ] at hi
+      have := ih hi
+      simp only [List.set_cons_succ, runningCount, List.countP_cons] at this ⊢
+      omega
+
+/-- every step taken after the terminate messages were sent keeps them sent and strictly decreases `mu` -/
+theorem step_decreases {keep : Bool} {target n : Nat} {s s' : St} (h : Inv n s) (ht : s.termSent = true)
+    (hs : Step keep target s s') : s'.termSent = true ∧ mu n s' < mu n s := by
+  have hph : pastSignal s.phase = true := by rw [← h.term]; exact ht
+  cases hs with
+  | workerTerminates i hi _ =>
+    refine ⟨ht, ?_⟩
+    have := runningCount_set (v := WState.exitedOk) hi (by decide)
+    simp only [mu]; omega
+  | workerSendsFrame i _ hf => rw [ht] at hf; cases hf
+  | workerSendsError i _ hf => rw [ht] at hf; cases hf
+  | workerPanics i _ hf => rw [ht] at hf; cases hf
+  | collectFrame rest raises hp _ => rw [hp] at hph; cases hph
+  | collectError rest hp _ => rw [hp] at hph; cases hph
+  | collectDisconnected hp _ _ _ => rw [hp] at hph; cases hph
+  | signal hp => rw [hp] at hph; cases hph
+  | join i w hp hw _ =>
+    refine ⟨ht, ?_⟩
+    have hi : i < n := by
+      rw [← h.len]
+      exact (List.getElem?_eq_some_iff.mp hw).1
+    simp only [mu, hp]; omega
+  | finish i hp _ =>
+    refine ⟨ht, ?_⟩
+    simp only [mu, hp]; omega
+
+/-- `k` consecutive steps -/
+inductive Steps (keep : Bool) (target : Nat) : Nat → St → St → Prop
+  | zero (s : St) : Steps keep target 0 s s
+  | succ {k : Nat} {s s' s'' : St} : Step keep target s s' → Steps keep target k s' s'' → Steps keep target (k + 1) s s''
+
+theorem steps_bounded {keep : Bool} {target n k : Nat} {s s' : St} (h : Inv n s) (ht : s.termSent = true)
+    (hs : Steps keep target k s s') : k + mu n s' ≤ mu n s ∧ Inv n s' ∧ s'.termSent = true := by
+  induction hs with
+  | zero s => exact ⟨by omega, h, ht⟩
+  | succ hstep _ ih =>
+    obtain ⟨ht', hlt⟩ := step_decreases h ht hstep
+    obtain ⟨h1, h2, h3⟩ := ih (inv_step h hstep) ht'
+    exact ⟨by omega, h2, h3⟩
+
+theorem mu_le {n : Nat} {s : St} (h : Inv n s) (hp : pastSignal s.phase = true) : mu n s ≤ 2 * n + 1 := by
+  have h1 := runningCount_le s.workers
+  rw [h.len] at h1
+  unfold mu
+  cases hph : s.phase with
+  | collecting => rw [hph] at hp; cases hp
+  | signalling => rw [hph] at hp; cases hp
+  | joining i => simp only; omega
+  | done ok => simp only; omega
+
 end LdpcV.BerProto
